@@ -42,3 +42,43 @@ func ModelSliceStable(x interface{}, less func(i, j int) bool) {
 		}
 	}
 }
+
+// ---- sync.Map: a plain map per sync.Map object (single-threaded semantics; the interpreter's
+// scheduler does not switch inside these models) ----
+
+var syncMaps = map[*sync.Map]map[interface{}]interface{}{}
+
+func ModelSyncMapOf(m *sync.Map) map[interface{}]interface{} {
+	mm, ok := syncMaps[m]
+	if !ok {
+		mm = map[interface{}]interface{}{}
+		syncMaps[m] = mm
+	}
+	return mm
+}
+
+func ModelSyncMapLoad(m *sync.Map, key interface{}) (interface{}, bool) {
+	v, ok := ModelSyncMapOf(m)[key]
+	return v, ok
+}
+
+func ModelSyncMapStore(m *sync.Map, key, value interface{}) { ModelSyncMapOf(m)[key] = value }
+
+func ModelSyncMapLoadOrStore(m *sync.Map, key, value interface{}) (interface{}, bool) {
+	mm := ModelSyncMapOf(m)
+	if v, ok := mm[key]; ok {
+		return v, true
+	}
+	mm[key] = value
+	return value, false
+}
+
+func ModelSyncMapDelete(m *sync.Map, key interface{}) { delete(ModelSyncMapOf(m), key) }
+
+func ModelSyncMapRange(m *sync.Map, f func(key, value interface{}) bool) {
+	for k, v := range ModelSyncMapOf(m) {
+		if !f(k, v) {
+			return
+		}
+	}
+}
